@@ -443,7 +443,7 @@ class Buildable(Generic[T], metaclass=abc.ABCMeta):
     ]
     new_placeholders = old_placeholders.copy()
     # Traverse from largest index to maintain order of undeleted indices.
-    for index in indices[::-1]:
+    for index in sorted(indices, reverse=True):
       if var_positional_start is None or index < var_positional_start:
         k = self.__signature_info__.index_to_key(index, self.__arguments__)
         if k in self.__arguments__:
@@ -498,10 +498,12 @@ class Buildable(Generic[T], metaclass=abc.ABCMeta):
     )
     var_positional_start = self.__signature_info__.var_positional_start
     index_range = slice_key.indices(len(all_positional_args))
-    if var_positional_start is None or index_range[0] < var_positional_start:
+    indices = range(*index_range)
+    # The lowest index touched (the start, or the last one for a negative step).
+    lowest = min(indices) if indices else index_range[0]
+    if var_positional_start is None or lowest < var_positional_start:
       # The slice key spans on non-variadic positional arguments, this set item
       # operation cannot modify the total length of full positiona args list.
-      indices = range(*index_range)
       if len(indices) != len(value):
         raise ValueError(
             'Cannot modify the total length of full positional arguments list'
